@@ -1,8 +1,10 @@
 import CkbVerif.Driver.Util
 import CkbVerif.Model.Orphan3
 import CkbVerif.Model.Skip
+import CkbVerif.Model.Locate
 import CkbVerif.Model.Inflight
 import CkbVerif.Model.HeaderMap
+import CkbVerif.Model.HeadersSync
 
 /-! Line-protocol driver for C17: four sub-modes (`orphan`, `skip`, `inflight`, `headermap`);
 protocol in harness/hnode/src/c17.rs. -/
@@ -65,6 +67,10 @@ structure St where
   hdrs : Array (Option Hdr) := #[]
   /-- main chain ids by number (for the `fast_scanner` shortcut) -/
   main : Array Nat := #[]
+  /-- ids whose block is in the node's store (`nblk`); `nhdr` headers are in the header map only -/
+  stored : Array Bool := #[]
+  /-- `Peers.state`: best known header and last common header per peer -/
+  peers : PeersSt := []
 
 def St.store (s : St) : Store := fun i => (s.hdrs.getD i none)
 
@@ -76,6 +82,40 @@ def St.scan (s : St) (on : Bool) : Nat → Hdr → Option Hdr := fun number cur 
 def setAt (a : Array (Option Hdr)) (i : Nat) (h : Hdr) : Array (Option Hdr) :=
   let a := if a.size ≤ i then a ++ Array.replicate (i + 1 - a.size) none else a
   a.set! i (some h)
+
+/-- `ActiveChain::get_ancestor(&base, number).number_and_hash()` (fast scanner on, as on the node) -/
+def St.ancNH (s : St) : Nat → Nat → Option NH := fun base number =>
+  (s.store base).bind (fun b => (getAncestor s.store (s.scan true) b number).map (fun t => (t.number, t.id)))
+
+/-- `Snapshot::get_block_number(hash)`: the main-chain index -/
+def St.numOnMain (s : St) : Nat → Option Nat := fun id =>
+  match s.store id with
+  | some h => if decide (h.number < s.main.size) && s.main.getD h.number 0 == id then some h.number else none
+  | none => none
+
+/-- `ChainDB::get_block_header(hash)`: stored blocks only -/
+def St.blk (s : St) : Nat → Option Hdr := fun id => if s.stored.getD id false then s.store id else none
+
+/-- `ActiveChain::get_block_hash(number)` -/
+def St.mainHash (s : St) : Nat → Option Nat := fun n => s.main[n]?
+
+def showNH (o : Option NH) : String :=
+  match o with
+  | some x => s!"{x.1}/{x.2}"
+  | none => "none"
+
+def showPeer (s : St) (p : Nat) : String :=
+  match s.peers.get p with
+  | none => "nopeer"
+  | some st =>
+    let b := match st.best with
+      | some hi => s!"{hi.number}/{hi.hash}/{hi.td}"
+      | none => "none"
+    s!"best={b} lc={showNH st.lastCommon}"
+
+def setFlag (a : Array Bool) (i : Nat) : Array Bool :=
+  let a := if a.size ≤ i then a ++ Array.replicate (i + 1 - a.size) false else a
+  a.set! i true
 
 def showOpt (o : Option Nat) : String :=
   match o with
@@ -108,6 +148,63 @@ def step (s : St) (ts : List String) : St × String :=
     | some i, some n, some p =>
       let h := buildSkip s.store (s.scan false) ⟨i, n, p, none⟩
       ({ s with hdrs := setAt s.hdrs i h }, "ok")
+    | _, _, _ => (s, "bad-op")
+  | ["nblk", i, n, p] =>
+    -- node-level stream: the block is processed and stored by the node
+    match parseNat? i, parseNat? n, parseNat? p with
+    | some i, some n, some p =>
+      let h := buildSkip s.store (s.scan false) ⟨i, n, p, none⟩
+      ({ s with hdrs := setAt s.hdrs i h, stored := setFlag s.stored i }, "ok")
+    | _, _, _ => (s, "bad-op")
+  | ["nhdrp", i, n, p, peer, td] =>
+    -- `SyncShared::insert_valid_header(peer, header)`: the header map entry, and the header offered as the
+    -- peer's best known header with its total difficulty
+    match parseNat? i, parseNat? n, parseNat? p, parseNat? peer, parseNat? td with
+    | some i, some n, some p, some peer, some td =>
+      let h := buildSkip s.store (s.scan false) ⟨i, n, p, none⟩
+      let s := { s with hdrs := setAt s.hdrs i h, peers := s.peers.maySetBestKnown peer ⟨n, i, td⟩ }
+      (s, showPeer s peer)
+    | _, _, _, _, _ => (s, "bad-op")
+  | ["lca", na, a, nb, b] =>
+    match parseNat? na, parseNat? a, parseNat? nb, parseNat? b with
+    | some na, some a, some nb, some b => (s, showNH (lastCommonAncestor s.ancNH (na, a) (nb, b)))
+    | _, _, _, _ => (s, "bad-op")
+  | ["lcb", i] =>
+    match (parseNat? i).bind s.store with
+    | some h =>
+      let anc := fun base index =>
+        (s.store base).bind (fun b => (getAncestor s.store (s.scan true) b index).map (·.id))
+      match getLocator anc 0 h.number h.id with
+      | some l => (s, showOpt (locateLatestCommonBlock s.numOnMain s.blk 0 l))
+      | none => (s, "panic")
+    | none => (s, "bad-op")
+  | ["lcbl", l] =>
+    match parseNatList? l with
+    | some l => (s, showOpt (locateLatestCommonBlock s.numOnMain s.blk 0 l))
+    | none => (s, "bad-op")
+  | ["pconn", p] =>
+    match parseNat? p with
+    | some p => let s := { s with peers := s.peers.connected p }; (s, showPeer s p)
+    | none => (s, "bad-op")
+  | ["pdisc", p] =>
+    match parseNat? p with
+    | some p => let s := { s with peers := s.peers.disconnected p }; (s, showPeer s p)
+    | none => (s, "bad-op")
+  | ["pbest", p, n, i, td] =>
+    match parseNat? p, parseNat? n, parseNat? i, parseNat? td with
+    | some p, some n, some i, some td =>
+      let s := { s with peers := s.peers.maySetBestKnown p ⟨n, i, td⟩ }; (s, showPeer s p)
+    | _, _, _, _ => (s, "bad-op")
+  | ["pslc", p, n, i] =>
+    match parseNat? p, parseNat? n, parseNat? i with
+    | some p, some n, some i => let s := { s with peers := s.peers.setLastCommon p (n, i) }; (s, showPeer s p)
+    | _, _, _ => (s, "bad-op")
+  | ["pulc", p, n, i] =>
+    match parseNat? p, parseNat? n, parseNat? i with
+    | some p, some n, some i =>
+      let r := updateLastCommonHeader s.ancNH s.mainHash (s.main.size - 1) s.peers p (n, i)
+      let s := { s with peers := r.1 }
+      (s, s!"r={showNH r.2} {showPeer s p}")
     | _, _, _ => (s, "bad-op")
   | ["main", i] =>
     match (parseNat? i).bind s.store with
@@ -246,10 +343,39 @@ def step (s : HM) (ts : List String) : HM × String :=
   | _ => (s, "bad-op")
 end H
 
+/-! ### hsync -/
+namespace HS
+open CkbVerif.HeadersSync
+
+def showCtl (c : Ctl) : String :=
+  s!"{c.startedTs} {c.startedTipTs} {c.lastUpdatedTs} {c.lastUpdatedTipTs} {if c.closeToEnd then 1 else 0}"
+
+def step (c : Ctl) (ts : List String) : Ctl × String :=
+  match ts with
+  | ["hsnew", a, b, x, d, e] =>
+    match parseNat? a, parseNat? b, parseNat? x, parseNat? d with
+    | some a, some b, some x, some d =>
+      let c : Ctl := ⟨a, b, x, d, e == "1"⟩
+      (c, showCtl c)
+    | _, _, _, _ => (c, "bad-op")
+  | ["hsto", tip, now] =>
+    match parseNat? tip, parseNat? now with
+    | some tip, some now =>
+      let r := isTimeout c tip now
+      let a := match r.2 with
+        | none => "none"
+        | some true => "true"
+        | some false => "false"
+      (r.1, s!"{a} {showCtl r.1}")
+    | _, _ => (c, "bad-op")
+  | _ => (c, "bad-op")
+end HS
+
 def main (args : List String) : IO UInt32 :=
   match args with
   | ["orphan"] => runLines ({} : CkbVerif.Orphan.Pool3) O.step
   | ["skip"] => runLines ({} : S.St) S.step
+  | ["hsync"] => runLines (⟨0, 0, 0, 0, false⟩ : CkbVerif.HeadersSync.Ctl) HS.step
   | ["inflight"] => runLines ({} : CkbVerif.Inflight.Inflight) I.step
   | ["headermap"] => runLines ({ limit := 0 } : CkbVerif.HeaderMap.HM) H.step
   | _ => do
